@@ -78,19 +78,52 @@ static void th_log(Th *th, int seq, int c, uint64_t dig, uint64_t gh) {
     if (gh) th->len += (size_t)snprintf(th->buf + th->len, 70, ",\"gh\":[%u,%u,%u,%u]", (unsigned)(gh >> 45), (unsigned)((gh >> 30) & 0x7fff), (unsigned)((gh >> 15) & 0x7fff), (unsigned)(gh & 0x7fff));
     th->len += (size_t)snprintf(th->buf + th->len, 4, "}\n");
 }
+static int g_cold = 0;
 static void *worker(void *arg) {
     Th *th = arg; uint64_t s = th->seed * 1315423911ULL + (uint64_t)th->t * 2654435761ULL; int seq = 0;
     pthread_barrier_wait(&bar);
     for (int it = 0; it < th->rounds * NCALLS; it++) {
         s = s * 6364136223846793005ULL + 1442695040888963407ULL; int c = (int)((s >> 33) % NCALLS);
         if (it % 3 == 0) c = (c / 12) * 12;                 /* plenty of concurrent boundary / area calls (pentagons among them) */
+        if (g_cold && it < NCALLS) c = (it * 11 + (it / 12)) % NCALLS;   /* cold start: all threads make the same calls at the same time, so that
+                                                                    every function's FIRST use in the process is concurrent */
         uint64_t d = do_call(c); uint64_t gh = (nseg && it % 8 == 0) ? globals_hash() : 0;   /* the hash is sampled every 8th call */
         th_log(th, ++seq, c, d, gh);
     }
     return NULL;
 }
 
+/* Cold-start executions (lazily initialised state, first-use races): "ref <seed> <file>" computes the workload's cells and the
+ * sequential digests in one process; "cold <seed> <file> <out>" is a fresh process that makes NO library call before it has
+ * hashed the library's writable segments and released T threads, which then all walk the workload in the same order. */
+static int ref_main(uint64_t seed, const char *path) {
+    prepare(seed); FILE *f = fopen(path, "w"); if (!f) return 2;
+    for (int c = 0; c < NCALLS; c++) fprintf(f, "%" PRIx64 " %" PRIx64 "\n", (uint64_t)cellA[c], do_call(c));
+    fclose(f); return 0;
+}
+static int cold_main(uint64_t seed, const char *refpath, const char *out) {
+    static uint64_t refd[NCALLS]; FILE *f = fopen(refpath, "r"); if (!f) return 2;
+    for (int c = 0; c < NCALLS; c++) { uint64_t a, d; if (fscanf(f, "%" SCNx64 " %" SCNx64, &a, &d) != 2) return 2; cellA[c] = a; refd[c] = d; }
+    fclose(f);
+    vt_open(out); dl_iterate_phdr(phdr_cb, NULL); if (nseg == 0) { fprintf(stderr, "libh3.so writable segments not found\n"); return 2; }
+    uint64_t g0 = globals_hash();                                /* before the first library call of this process */
+    fputs("{\"e\":\"Start\",\"gh\":", vt_out); vt_word(g0); fprintf(vt_out, ",\"segments\":%d,\"cold\":1}\n", nseg);
+    for (int c = 0; c < NCALLS; c++) { fprintf(vt_out, "{\"e\":\"Ref\",\"c\":%d,\"dig\":", c); vt_word(refd[c]); fputs(",\"gh\":", vt_out); vt_word(g0); fputs("}\n", vt_out); }
+    g_cold = 1; int T = 8; pthread_t th[16]; Th ctx[16];
+    pthread_barrier_init(&bar, NULL, (unsigned)T);
+    fprintf(vt_out, "{\"e\":\"Round\",\"n\":0,\"T\":%d}\n", T);
+    for (int t = 0; t < T; t++) { ctx[t] = (Th){t, T, 1, seed, NULL, 0, 0}; pthread_create(&th[t], NULL, worker, &ctx[t]); }
+    for (int t = 0; t < T; t++) pthread_join(th[t], NULL);
+    for (int t = 0; t < T; t++) { fwrite(ctx[t].buf, 1, ctx[t].len, vt_out); free(ctx[t].buf); }
+    /* and once more sequentially: state left behind by the concurrent phase */
+    fprintf(vt_out, "{\"e\":\"Round\",\"n\":1,\"T\":1}\n");
+    { Th one = {0, 1, 1, seed, NULL, 0, 0}; for (int c = 0; c < NCALLS; c++) th_log(&one, c + 1, c, do_call(c), globals_hash()); fwrite(one.buf, 1, one.len, vt_out); free(one.buf); }
+    vt_close(); return 0;
+}
+
 int main(int argc, char **argv) {
+    if (argc == 4 && !strcmp(argv[1], "ref")) return ref_main(strtoull(argv[2], 0, 10), argv[3]);
+    if (argc == 5 && !strcmp(argv[1], "cold")) return cold_main(strtoull(argv[2], 0, 10), argv[3], argv[4]);
     if (argc < 4) return 2;
     int rounds = atoi(argv[1]); uint64_t seed = strtoull(argv[2], 0, 10); vt_open(argv[3]);
     dl_iterate_phdr(phdr_cb, NULL);
